@@ -324,16 +324,36 @@ def r5(run, db):
     a = al[0]
     run.saw(len(a.blocks), a)
     ct = [c for c in a.calls() if c.matches(r"HashSet::<T, S, A>::contains$")]
-    sr = [c for c in a.calls() if c.matches(r"Option::<T>::is_some_and$")]
     wp = [c for c in a.calls() if c.matches(r"registry::where_is_pid$|pid_registry::where_is_pid$")]
-    run.check(len(ct) == 1 and len(sr) == 1 and len(wp) == 1, "allow|shape", "lookup: advertised.contains, where_is_pid, supports_remoting", "allow-list lookup shape changed", a.where())
-    if ct and sr and wp:
+    # "the looked-up cell supports remoting", in whichever spelling: `opt.is_some_and(ActorCell::supports_remoting)`, the same
+    # with a closure, or the call written out (`Some(actor) if actor.supports_remoting()`)
+    sr_edges = []
+    sr_sites = []
+    for c in a.calls():
+        if c.matches(r"Option::<T>::is_some_and$"):
+            hit = False
+            for r in a.origins(c.args[1]):
+                if r["k"] == "const" and "supports_remoting" in str(r["op"].get("val")):
+                    hit = True
+                if r["k"] == "agg" and r["stmt"]["rv"].get("kind") == "closure":
+                    g = db.fns.get(r["stmt"]["rv"]["def"])
+                    if g is not None and any(x.callee and x.callee.endswith("::supports_remoting") for x in g.calls()) and len(g.calls()) == 1 and not g.switches():
+                        hit = True
+            if hit and true_edge(a, c):
+                sr_edges.append(true_edge(a, c))
+                sr_sites.append(c)
+        elif c.callee and c.callee.endswith("::supports_remoting") and true_edge(a, c):
+            sr_edges.append(true_edge(a, c))
+            sr_sites.append(c)
+    run.check(len(ct) == 1 and len(sr_edges) == 1 and len(wp) == 1, "allow|shape", "lookup: advertised.contains, where_is_pid, supports_remoting", "allow-list lookup shape changed", a.where())
+    if ct and sr_edges and wp:
         subj = [proj_field_name(e) for r in a.origins(ct[0].args[0]) for e in r.get("proj", []) + r.get("trail", []) if e.startswith("f:")]
         run.check(fields(db).nss_advertised in subj and any(r["k"] == "arg" and r["local"] == 2 for r in a.origins(ct[0].args[1])), "allow|contains-pid", "the pid parameter is looked up in the advertised set", "contains() not applied to (advertised set, pid)", ct[0].where())
         te1 = true_edge(a, ct[0])
-        te2 = true_edge(a, sr[0])
-        rem = any(r["k"] == "const" and "supports_remoting" in str(r["op"].get("val")) for r in a.origins(sr[0].args[1]))
-        run.check(rem, "allow|supports-remoting", "the cell must support remoting", "supports_remoting no longer required", sr[0].where())
+        te2 = sr_edges[0]
+        # the tested cell is the one where_is_pid returned
+        tested = a.origins(sr_sites[0].args[0], through=lambda cc: 0 if cc.matches(r"Option::<T>::as_ref$|Deref>::deref$|Deref::deref$") else None)
+        run.check(any(r["k"] == "call" and r["call"].bb == wp[0].bb for r in tested), "allow|supports-remoting", "the cell found by where_is_pid must support remoting", "supports_remoting is not asked of the looked-up cell", sr_sites[0].where())
         # every non-None return is dominated by both true edges
         somes = []
         for site, s in a.stmts():
@@ -394,6 +414,32 @@ def r6(run, db):
     ct = [c for c in f.calls() if c.matches(r"HashSet::<T, S, A>::contains$") and ge and f.edge_dominates(ge, c.site)]
     good = len(ins) == 1 and len(ct) == 1 and true_edge(f, ct[0]) and f.edge_dominates(true_edge(f, ct[0]), ins[0].site)
     subj = [proj_field_name(e) for r in (f.origins(ct[0].args[0]) if ct else []) for e in r.get("proj", []) + r.get("trail", []) if e.startswith("f:")]
+    if not (good and fields(db).nsv_authenticated in subj) and ge:
+        # the same selection written with iterator combinators: the reply is collected from `.filter(|(id, _)| authenticated.contains(id))`
+        for c in f.calls():
+            if not (c.matches(r"Iterator::filter$") and f.edge_dominates(ge, c.site)):
+                continue
+            for r in f.origins(c.args[1]):
+                if not (r["k"] == "agg" and r["stmt"]["rv"].get("kind") == "closure"):
+                    continue
+                g = db.fns.get(r["stmt"]["rv"]["def"])
+                if g is None or g.switches():
+                    continue
+                cts = [x for x in g.calls() if x.matches(r"HashSet::<T, S, A>::contains$")]
+                ret = g.origins([0, []])
+                if len(cts) != 1 or not ret or not all(x["k"] == "call" and x["call"].bb == cts[0].bb for x in ret):
+                    continue
+                names = []
+                for x in g.origins(cts[0].args[0]):
+                    names += [proj_field_name(e) for e in x.get("proj", []) + x.get("trail", []) if e.startswith("f:")]
+                    if x["k"] == "upvar" and x.get("field") is not None and x["field"] < len(r["stmt"]["rv"]["ops"]):
+                        for y in f.origins(r["stmt"]["rv"]["ops"][x["field"]]):
+                            names += [proj_field_name(e) for e in y.get("proj", []) + y.get("trail", []) if e.startswith("f:")]
+                # the filtered iterator is what the reply is collected from, and nothing else is inserted
+                coll = [x for x in f.calls() if x.matches(r"Iterator::collect$") and f.edge_dominates(ge, x.site) and any(z["k"] == "call" and z["call"].bb == c.bb for z in f.origins(x.args[0], through=lambda cc: 0 if cc.matches(r"Iterator::(map|cloned|copied|inspect)$") else None))]
+                if fields(db).nsv_authenticated in names and coll and not ins:
+                    good = True
+                    subj = names
     run.check(good and fields(db).nsv_authenticated in subj, "GetSessions|authenticated-only", "GetSessions lists a session only on the true edge of authenticated_sessions.contains(id)", "GetSessions lists sessions without the authenticated filter", f.where())
     writers = []
     for g in db.crate_fns(RC):
